@@ -256,67 +256,164 @@ func checkC33(c *Ctx) (string, []string) {
 	}
 
 	// ---- pages
-	c.Rule("C33.pages", "pages touches exactly pages p..p+c-1 of the selected machine, rejects r>4, p<16, p+c≥2^32/Z_P and (for r>2) ranges containing an inaccessible page, zeroes contents for r<3, keeps them for r=3,4, and sets access ∅/R/W per mode", 3)
+	c.Rule("C33.pages", "pages, followed with the mode r, the range (p, c) and the state of the pages valued: rejects (HUH, no update) r > 4, p < 16, p + c ≥ 2^32/Z_P and, for r > 2, a range with an unmapped or inaccessible page; otherwise touches exactly the pages p..p+c−1: r = 0 removes them, r = 1, 2 installs a page whose contents are made in that iteration with access R / RW, r = 3, 4 changes only the access to R / RW; result OK", 8)
 	if f := c.Fn("PVM", "pages"); f != nil {
-		idx := "phi((1 + cyc) | u32(" + R(8) + "))"
-		P := M + ".Memory.Pages"
-		wantConds := []string{
-			"(0 == " + P + "[" + idx + "]#0.Access)", "(0 == " + R(10) + ")", "(1048576 <= (" + R(8) + " + " + R(9) + "))", "(2 < " + R(10) + ")", "(2 == " + R(10) + ")",
-			"(4 < " + R(10) + ")", "(4 == " + R(10) + ")", "(PVM.chargeGasAndCheck(cell(p0)) != nil)", "(" + R(10) + " < 3)", "(" + R(8) + " < 16)",
-			"(" + idx + " < u32((" + R(8) + " + " + R(9) + ")))", MAP + "[" + R(7) + "]#1", P + "[" + idx + "]#1",
+		const OKv, HUHv = int64(0), int64(-9) // HUH = 2^64 − 9
+		type row struct {
+			name           string
+			r, p, cnt      int64
+			mapped, access int64
+			huh            bool
+			kind           string // "", "delete", "fresh", "access"
+			acc            int64
 		}
-		sort.Strings(wantConds)
-		got := condShapes(f)
-		c.Check(strings.Join(got, " ; ") == strings.Join(wantConds, " ; "), "C33.pages", "PVM.pages · tests", f.Pos(), "mode and range tests as specified", "tests are ["+abbr(strings.Join(got, " ; "))+"]")
-		keysOK := true
-		ndel, nset, nacc := 0, 0, 0
-		allInstrs(f, func(in ssa.Instruction) {
-			switch x := in.(type) {
-			case *ssa.MapUpdate:
-				if exprStr(x.Map, shapeOpts) == P {
-					nset++
-					keysOK = keysOK && exprStr(x.Key, shapeOpts) == idx
-					flds := structLiteralFields(x.Value)
-					if flds == nil || !(exprStr(flds["Value"], shapeOpts) == "make([]byte, 4096)" || exprStr(flds["Value"], shapeOpts) == "alloc:[4096]byte[:4096]") || exprStr(flds["Access"], shapeOpts) != "phi(1 | 2)" {
-						keysOK = false
-						c.Note("pages fresh page literal: %v / %v", exprStr(flds["Value"], shapeOpts), exprStr(flds["Access"], shapeOpts))
+		rows := []row{
+			{"r=5", 5, 20, 3, 1, 2, true, "", 0},
+			{"r=7", 7, 20, 3, 1, 2, true, "", 0},
+			{"p=15", 1, 15, 3, 1, 2, true, "", 0},
+			{"p+c=2^20", 1, 1<<20 - 3, 3, 1, 2, true, "", 0},
+			{"r=3, a page unmapped", 3, 20, 3, 0, 0, true, "", 0},
+			{"r=4, a page inaccessible", 4, 20, 3, 1, 0, true, "", 0},
+			{"r=0", 0, 20, 3, 1, 2, false, "delete", 0},
+			{"r=0, pages unmapped", 0, 20, 3, 0, 0, false, "delete", 0},
+			{"r=1", 1, 20, 3, 0, 0, false, "fresh", 1},
+			{"r=2", 2, 20, 3, 1, 1, false, "fresh", 2},
+			{"r=3", 3, 20, 3, 1, 2, false, "access", 1},
+			{"r=4", 4, 20, 3, 1, 1, false, "access", 2},
+			{"r=2, one page", 2, 16, 1, 0, 0, false, "fresh", 2},
+		}
+		isPagesMap := func(v ssa.Value) bool { return strings.Contains(exprStr(v, shapeOpts), ".Memory.Pages") }
+		for _, rw := range rows {
+			type upd struct {
+				kind string
+				key  int64
+				acc  string
+				at   ssa.Instruction
+			}
+			var ups []upd
+			result := int64(-1)
+			undecided := ""
+			_, ok := runWithAtomsEnv(f, shapeOpts, func(s string) (int64, bool) {
+				switch {
+				case s == R(10):
+					return rw.r, true
+				case s == R(8):
+					return rw.p, true
+				case s == R(9):
+					return rw.cnt, true
+				case s == "(PVM.chargeGasAndCheck(cell(p0)) != nil)":
+					return 0, true
+				case s == MAP+"["+R(7)+"]#1":
+					return 1, true
+				case strings.HasSuffix(s, "]#1"):
+					return rw.mapped, true
+				case strings.HasSuffix(s, ".Access"):
+					return rw.access, true
+				}
+				return 0, false
+			}, func(in ssa.Instruction, env intEnv) {
+				switch x := in.(type) {
+				case *ssa.MapUpdate:
+					if isPagesMap(x.Map) {
+						k, okk := evalInt(x.Key, env, 0)
+						if !okk {
+							undecided = "the page number of an installed page is not determined"
+						}
+						acc := ""
+						if flds := structLiteralFields(x.Value); flds != nil {
+							if a, oka := evalInt(flds["Access"], env, 0); oka {
+								acc = fmt.Sprint(a)
+							}
+							if !c33FreshInIteration(flds["Value"], x) {
+								acc += " (contents not made in this iteration)"
+							}
+						}
+						ups = append(ups, upd{"fresh", k, acc, in})
+					}
+				case *ssa.Call:
+					// a result helper: sets register 7 to one of its parameters
+					if g := x.Call.StaticCallee(); g != nil && len(g.Blocks) > 0 && g.Pkg == f.Pkg {
+						allInstrs(g, func(y ssa.Instruction) {
+							if _, kreg, isC, isReg := e.registerStore(y); isReg && isC && kreg == 7 {
+								if p, isP := stripConv(y.(*ssa.Store).Val).(*ssa.Parameter); isP {
+									for pi, q := range g.Params {
+										if q == p && pi < len(x.Call.Args) {
+											if v, okv := evalInt(x.Call.Args[pi], env, 0); okv {
+												result = v
+											}
+										}
+									}
+								}
+							}
+						})
+					}
+					if b, isB := x.Call.Value.(*ssa.Builtin); isB && b.Name() == "delete" && isPagesMap(x.Call.Args[0]) {
+						k, okk := evalInt(x.Call.Args[1], env, 0)
+						if !okk {
+							undecided = "the page number of a removed page is not determined"
+						}
+						ups = append(ups, upd{"delete", k, "", in})
+					}
+				case *ssa.Store:
+					if s := exprStr(x.Addr, shapeOpts); strings.HasSuffix(s, "].Access") && strings.Contains(s, ".Memory.Pages[") {
+						var k int64 = -1
+						if fa, isFA := x.Addr.(*ssa.FieldAddr); isFA {
+							if lk := pageOf(fa.X); lk != nil {
+								if kk, okk := evalInt(lk.Index, env, 0); okk {
+									k = kk
+								}
+							}
+						}
+						acc := ""
+						if a, oka := evalInt(x.Val, env, 0); oka {
+							acc = fmt.Sprint(a)
+						}
+						ups = append(ups, upd{"access", k, acc, in})
+					}
+					if _, kreg, isC, isReg := e.registerStore(in); isReg && isC && kreg == 7 {
+						if v, okv := evalInt(x.Val, env, 0); okv {
+							result = v
+						}
 					}
 				}
-			case *ssa.Call:
-				if b, ok := x.Call.Value.(*ssa.Builtin); ok && b.Name() == "delete" && exprStr(x.Call.Args[0], shapeOpts) == P {
-					ndel++
-					keysOK = keysOK && exprStr(x.Call.Args[1], shapeOpts) == idx
+			})
+			key := "PVM.pages · " + rw.name
+			switch {
+			case !ok || undecided != "":
+				c.Bad("C33.pages", key, f.Pos(), "the outcome is not decided by the mode, the range and the state of the pages (%s)", undecided)
+				continue
+			}
+			bad := ""
+			if rw.huh {
+				if len(ups) != 0 || result != HUHv {
+					bad = fmt.Sprintf("expected HUH without any page update; got result %d and %d update(s)", result, len(ups))
 				}
-			case *ssa.Store:
-				if s := exprStr(x.Addr, shapeOpts); s == "&"+P+"["+idx+"].Access" {
-					nacc++
-					keysOK = keysOK && exprStr(x.Val, shapeOpts) == "phi(1 | 2)"
+			} else {
+				want := map[int64]bool{}
+				for k := rw.p; k < rw.p+rw.cnt; k++ {
+					want[k] = true
+				}
+				got := map[int64]bool{}
+				for _, u := range ups {
+					if u.kind != rw.kind {
+						bad = fmt.Sprintf("a page is updated by %q, the mode asks for %q", u.kind, rw.kind)
+					}
+					if rw.kind != "delete" && u.acc != fmt.Sprint(rw.acc) {
+						bad = fmt.Sprintf("page %d gets access %s, the mode asks for %d", u.key, u.acc, rw.acc)
+					}
+					got[uint32key(u.key)] = true
+				}
+				if bad == "" && (len(got) != len(want) || result != OKv) {
+					bad = fmt.Sprintf("%d distinct pages updated, result %d; expected the %d pages %d..%d and OK", len(got), result, rw.cnt, rw.p, rw.p+rw.cnt-1)
+				}
+				for k := range want {
+					if bad == "" && !got[k] {
+						bad = fmt.Sprintf("page %d of the range is not updated", k)
+					}
 				}
 			}
-		})
-		c.Check(keysOK && ndel == 1 && nset == 1 && nacc == 1, "C33.pages", "PVM.pages · updates", f.Pos(), "delete / fresh zero page / access-only update, each keyed by the loop page index", fmt.Sprintf("page-table updates are not the three specified ones keyed by p..p+c-1 (delete=%d fresh=%d access=%d)", ndel, nset, nacc))
-		// arms: delete on r==0, fresh on r<3, access-only otherwise
-		arm := func(cond string, pol bool) []edge {
-			return condEdges(f, func(v ssa.Value) (bool, bool) { return exprStr(v, shapeOpts) == cond, pol })
+			c.Check(bad == "", "C33.pages", key, f.Pos(), "as specified", bad)
 		}
-		armsOK := true
-		allInstrs(f, func(in ssa.Instruction) {
-			switch x := in.(type) {
-			case *ssa.MapUpdate:
-				if exprStr(x.Map, shapeOpts) == P {
-					armsOK = armsOK && guardedBy(f, in, arm("("+R(10)+" < 3)", true)) && guardedBy(f, in, arm("(0 == "+R(10)+")", false))
-				}
-			case *ssa.Call:
-				if b, ok := x.Call.Value.(*ssa.Builtin); ok && b.Name() == "delete" {
-					armsOK = armsOK && guardedBy(f, in, arm("(0 == "+R(10)+")", true))
-				}
-			case *ssa.Store:
-				if strings.HasSuffix(exprStr(x.Addr, shapeOpts), "].Access") && !rootedInLocal(x.Addr) {
-					armsOK = armsOK && guardedBy(f, in, arm("("+R(10)+" < 3)", false))
-				}
-			}
-		})
-		c.Check(armsOK, "C33.pages", "PVM.pages · arms", f.Pos(), "r=0 unmaps, r<3 maps zeroed pages, r≥3 changes access only", "page updates are not selected by the mode as specified")
 	}
 
 	// ---- expunge
@@ -376,6 +473,40 @@ func isLoopFrom(v ssa.Value, k int64) bool {
 		if c, isC := constInt(e); isC && c == k {
 			return isLoopIndex(p)
 		}
+	}
+	return false
+}
+
+func uint32key(k int64) int64 { return int64(uint32(k)) }
+
+// c33FreshInIteration: the contents of an installed page are a slice made inside the innermost loop around the
+// installation (or by a helper called there that returns a fresh make) — not a buffer shared between pages.
+func c33FreshInIteration(v ssa.Value, at ssa.Instruction) bool {
+	v = stripConv(v)
+	loops := enclosingLoops(at.Block())
+	inLoop := func(b *ssa.BasicBlock) bool { return len(loops) == 0 || loops[0][b] }
+	switch x := v.(type) {
+	case *ssa.MakeSlice:
+		return inLoop(x.Block())
+	case *ssa.Slice:
+		if a, ok := x.X.(*ssa.Alloc); ok {
+			return a.Heap && inLoop(a.Block())
+		}
+	case *ssa.Call:
+		g := x.Call.StaticCallee()
+		if g == nil || len(g.Blocks) == 0 || !inLoop(x.Block()) {
+			return false
+		}
+		fresh, n := true, 0
+		allInstrs(g, func(in ssa.Instruction) {
+			if r, isR := in.(*ssa.Return); isR && len(r.Results) > 0 {
+				n++
+				if _, mk := stripConv(resolveLocal(retResults(r)[0])).(*ssa.MakeSlice); !mk {
+					fresh = false
+				}
+			}
+		})
+		return fresh && n > 0
 	}
 	return false
 }
